@@ -14,8 +14,9 @@ import (
 )
 
 type clauseKey struct {
-	cl  *Clause
-	pos token.Pos
+	cl    *Clause
+	pos   token.Pos
+	noWit bool
 }
 
 type checkedClause struct {
@@ -52,7 +53,7 @@ func qualifierAt(fi *FuncInfo, pos token.Pos) types.Qualifier {
 // checkClause desugars, parses and type-checks a clause at pos inside function fi. ghostTypes gives the Go types
 // of the ghost names (result, it1, ...) that the clause may mention.
 func checkClause(prog *Program, fi *FuncInfo, cl *Clause, pos token.Pos, ghostTypes map[string]types.Type) *checkedClause {
-	key := clauseKey{cl, pos}
+	key := clauseKey{cl, pos, desugarNoWitness}
 	if c, ok := clauseCache[key]; ok {
 		return c
 	}
@@ -452,7 +453,9 @@ func (fv *FuncVerifier) evalClause(st *State, cl *Clause, pos token.Pos, names m
 // evalClauseFor evaluates a clause of callee fi at a call site.
 func (fv *FuncVerifier) evalClauseFor(fi *FuncInfo, st *State, cl *Clause, binds map[types.Object]Term, names map[string]Term, pre *State, preBinds map[types.Object]Term) Term {
 	pos := fi.Decl.Body.Lbrace + 1
+	desugarNoWitness = true
 	cc := checkClause(fv.prog, fi, cl, pos, ghostTypesFor(fi, nil, fi.Pkg.TypesInfo))
+	desugarNoWitness = false
 	if cc.err != nil {
 		fv.bindErrors = append(fv.bindErrors, fmt.Sprintf("%s (%s of callee %s): %v", cl.Pos, cl.Kind, fi.Key, cc.err))
 		return fv.fresh("badclause", SBool)
